@@ -37,6 +37,7 @@ class Gen:
         self.weights = dict(weights or PROFILES[profile])
         self.n = {"V": 0, "U": 0, "E": 0, "M": 0, "W": 0}
         self.recent: list[str] = []
+        self.dup_uids = False
 
     def fresh(self, prefix):
         k = self.n[prefix]
@@ -81,7 +82,10 @@ class Gen:
     def initial(self, pool, nv=3):
         ops = []
         for _ in range(nv):
-            ops.append(["mkv", self.fresh("V"), self.rng.choice(VCLS), [], []])
+            op = ["mkv", self.fresh("V"), self.rng.choice(VCLS), [], []]
+            if self.dup_uids and self.rng.random() < 0.6:
+                op += ["list", self.rng.randint(1, 2)]  # distinct vertices sharing a uid
+            ops.append(op)
         return ops
 
     def next_op(self, pool):
@@ -162,6 +166,10 @@ class Gen:
         l = self._pick(ls)
         if l is None:
             return None
+        has_none = any(x is None for x in pool.get(l).vertices)
+        if kind in ("l_unlink_from", "l_add_vertex") and self.rng.random() < (0.35 if has_none else 0.04):
+            # None is a legal "end" of a half-assigned edge: it can be removed from / added to the end list
+            return [kind, l, None]
         ends = [pool.name(x) for x in pool.get(l).vertices if x is not None and not pool.name(x).startswith("?")]
         if ends and self.rng.random() < related_bias:
             v = self.rng.choice(ends)
